@@ -1,31 +1,6 @@
-#[macro_use]
-mod engine;
-mod gen;
-mod keys;
-mod proto;
-mod specref;
-mod rt;
-mod c01;
-mod c02;
-mod c03;
-mod c04;
-mod c05;
-mod c06;
-mod c07;
-mod c08;
-mod c09;
-mod tgen;
-mod c10;
-mod c18;
-mod c11;
-mod c12;
-mod c13;
-mod c14;
-mod c15;
-mod c16;
-mod c17;
+use pv::*;
 
-use engine::{Ctx, Tier};
+use pv::engine::{Ctx, Tier};
 
 fn main() {
   let args: Vec<String> = std::env::args().collect();
@@ -36,6 +11,19 @@ fn main() {
   engine::install_panic_hook();
   let id = args[1].as_str();
   if id == "probe" { probe(); return; }
+  if id == "fuzz-seeds" {
+    // pv fuzz-seeds <dir>: writes the seed corpora of the three libFuzzer targets
+    let dir = std::path::PathBuf::from(&args[2]);
+    for (name, seeds) in [("fz_anytoken", c09::fuzz_seeds()), ("fz_tamper", c03::fuzz_seeds()), ("fz_cross", c07::fuzz_seeds())] {
+      let d = dir.join(name).join("seeds");
+      std::fs::create_dir_all(&d).unwrap();
+      for (i, s) in seeds.iter().enumerate() {
+        std::fs::write(d.join(format!("seed-{i:04}")), s).unwrap();
+      }
+      println!("{name}: {} seeds", seeds.len());
+    }
+    return;
+  }
   if id == "selftest" {
     match specref::selftest() {
       Ok(n) => { println!("specref self-test: {n} official vectors reproduced"); std::process::exit(0) }
